@@ -48,7 +48,7 @@ Theorem interest_roundtrip : forall (sha256 : bytes -> bytes), (forall x, length
   let need := match app with Some _ => true | None => false end in
   let pre := strip_digest nm in
   let nm1 := if need then pre ++ [mkc 2 zeros32] else pre in
-  int_siginfo sg need = Ok (si, est) -> name_ok pre -> (app = None -> existsb is_digest_comp pre = false) ->
+  int_siginfo sg need = Ok (si, est) -> name_ok pre ->
   iconfig_ok cfg -> signer_ok sg -> signer_int_ok sg -> int_fits nm1 cfg app si est ->
   make_interest sha256 sign nm cfg app sg = Ok e ->
   exists svo, (est = 0 -> svo = None) /\ (0 < est -> sign (e_cov e) = svo /\ exists s, svo = Some s /\ blen s <= est) /\
@@ -74,7 +74,7 @@ Theorem packet_tlv_exact_interest : forall (sha256 : bytes -> bytes), (forall x,
   let need := match app with Some _ => true | None => false end in
   let pre := strip_digest nm in
   let nm1 := if need then pre ++ [mkc 2 zeros32] else pre in
-  int_siginfo sg need = Ok (si, est) -> name_ok pre -> (app = None -> existsb is_digest_comp pre = false) ->
+  int_siginfo sg need = Ok (si, est) -> name_ok pre ->
   iconfig_ok cfg -> signer_ok sg -> signer_int_ok sg -> int_fits nm1 cfg app si est ->
   make_interest sha256 sign nm cfg app sg = Ok e -> walk_packet (concat (e_wire e)) = true.
 Proof. exact packet_tlv_exact_interest_thm. Qed.
@@ -85,7 +85,7 @@ Theorem segmentation_irrelevant_interest : forall (sha256 : bytes -> bytes), (fo
   let need := match app with Some _ => true | None => false end in
   let pre := strip_digest nm in
   let nm1 := if need then pre ++ [mkc 2 zeros32] else pre in
-  int_siginfo sg need = Ok (si, est) -> name_ok pre -> (app = None -> existsb is_digest_comp pre = false) ->
+  int_siginfo sg need = Ok (si, est) -> name_ok pre ->
   iconfig_ok cfg -> signer_ok sg -> signer_int_ok sg -> int_fits nm1 cfg app si est ->
   make_interest sha256 sign nm cfg app sg = Ok e ->
   exists svo, forall segs, concat segs = concat (e_wire e) ->
